@@ -21,8 +21,12 @@ for mid, c in sorted(conf.items()):
     subprocess.run("git -C /repo worktree remove --force %s" % wt, shell=True, capture_output=True)
     shutil.rmtree(wt, ignore_errors=True)
     subprocess.run("git -C /repo worktree add -q --detach %s HEAD" % wt, shell=True, check=True)
-    r = subprocess.run("git apply /tmp/mut/%s/patch.diff || patch -p1 -s --fuzz=3 < /tmp/mut/%s/patch.diff" % (mid, mid), shell=True, cwd=wt, capture_output=True, text=True)
+    r = subprocess.run("git apply %s/%s/patch.diff || patch -p1 -s --fuzz=3 < %s/%s/patch.diff" % (ROOT, mid, ROOT, mid), shell=True, cwd=wt, capture_output=True, text=True)
+    applied = subprocess.run("git diff --quiet", shell=True, cwd=wt).returncode != 0
     res = {}
+    if not applied:
+        out[mid] = {"_error": {"rc": 2, "violations": 0, "first": "patch did not apply", "drift": False}}
+        continue
     env = dict(os.environ, HASHSTORE_SRC=wt + "/src", VERIF_SCRATCH_OUT="/tmp/wtm/out_" + mid.replace("/", "_"), VERIF_NOCACHE="1")
     for chk in RELATED[prop]:
         p = subprocess.run(["./check", chk, "--tier", "quick"], cwd="/verif", env=env, capture_output=True, text=True, timeout=3600)
